@@ -148,6 +148,35 @@ def run(ctx):
                 return False
         return True
     cases = O.gen_cases(ctx, n, gen, ctx.budget(3, 4), accept=accept)
+    # annotated operators: the same trees with TRUE declarations (SelfAdjoint / PSD / Unitary / Stiefel) at their nodes,
+    # from property C05's generator - a declaration (and what rules do with it) must not change action or dense form
+    from props import c05
+    c05_present = {f["flag"] for f in c05.findings() if f["present"]}
+    ag = c05.AGen(ctx.rng, T.Gen(ctx.rng, kinds=("Dense", "Diag", "Tri", "Tridiag", "Sum", "Prod", "Kron", "Transp", "Adj")))
+    ag.index_arrays = "sliced_index_array_cpu" not in present
+    n_an, tries_an = ctx.budget(80, 800), 0
+    rnd = ctx.rng
+    while n_an > 0 and tries_an < 4000:
+        tries_an += 1
+        an, t = ag.node(rnd.randint(1, 3), rnd.random() < 0.6)
+        m_, n_ = T.shape(t)
+        if m_ == 0 or n_ == 0 or m_ * n_ > 400:
+            continue
+        if "scalar_keeps_annotations" in c05_present and c05.scal_in_prod(t):
+            continue
+        if "SelfAdjoint" in c05.truth(T.dense(t)) and rnd.random() < 0.6:
+            an = dict(an, decl=sorted(set(an.get("decl", [])) | {"SelfAdjoint"}))
+        wide64 = set(O.leaf_dts(t)) <= {"float64", "complex128", "int64"}
+        if T.absbound(t) * 5 * max(m_, n_) > (2 ** 45 if wide64 else 2 ** 20):
+            continue
+        xc = rnd.random() < 0.5
+        dx = ("complex128" if xc else "float64") if (wide64 and T.absbound(t) > 2 ** 18) else rnd.choice(T.CPLX if xc else T.REAL)
+        k_ = rnd.choice([1, 2])
+        case = dict(tree=t, an=an, m=m_, n=n_, k=k_, dx=dx, X=O.rand_mat(rnd, n_, k_, xc), XL=O.rand_mat(rnd, k_, m_, xc))
+        if not accept(case):
+            continue
+        cases.append(case)
+        n_an -= 1
     obs = [O.run_impl(c) for c in cases]
     # model vs implementation, inside Coq
     coq_idx = list(range(len(cases)))
